@@ -135,6 +135,21 @@ def make_size(spec):
     return None if spec is None else Size(**spec)
 
 
+def originals_kept(examples, opts):
+    """the examples as given (not stripped) that no explicit option discards"""
+    out = []
+    items = examples.items() if isinstance(examples, dict) else [(s, 1) for s in examples]
+    for s, n in items:
+        if s is None or n == 0:
+            continue
+        t = s.strip() if opts.get('strip') else s
+        if opts.get('remove_empties') and len(t) == 0:
+            continue
+        if s not in out:
+            out.append(s)
+    return out
+
+
 def cleaned(examples, opts):
     """Counter of the examples an explicit option does not discard (first-occurrence order)."""
     c = Counter()
